@@ -652,7 +652,10 @@ def case_conjunction(mon, seedval):
     n = rng.choice((3, 5, 5, 7, 4, 6))
     n_used = n if n % 2 == 1 else n - 1
     half = n_used // 2
-    a0 = rng.uniform(20, 340)
+    # (one time in four the meeting takes place at the 0h / 24h seam of the
+    # right ascension, where one body is written 359.9 and the other 0.1)
+    a0 = rng.choice((rng.uniform(20, 340), rng.uniform(20, 340),
+                     rng.uniform(20, 340), rng.uniform(-1.5, 1.5) % 360.0))
     d0 = rng.uniform(-60, 60)
     t0 = rng.uniform(-0.45 * half, 0.45 * half) if half > 0 else 0.0
     ra1, de1, ra2, de2 = [], [], [], []
@@ -670,7 +673,11 @@ def case_conjunction(mon, seedval):
     star = rng.random() < 0.4
     try:
         if star:
-            n0, dd = C.planet_star_conjunction(A(ra1), A(de1), Angle(ra2[half]),
+            sra = Angle(ra2[half])
+            if rng.random() < 0.3 and 0.0 < sra._deg < 360.0:
+                sra = Angle(sra._deg - 360.0)     # the same right ascension
+                mon.cls("star-RA-written-in-(-360,0)", ident)
+            n0, dd = C.planet_star_conjunction(A(ra1), A(de1), sra,
                                                Angle(de2[half]))
             ra2u = [ra2[half]] * n
             de2u = [de2[half]] * n
@@ -683,8 +690,11 @@ def case_conjunction(mon, seedval):
         # conjunctions inside one table (relative curvature beating the
         # relative motion) leave the same sign at both ends
         u2 = [ra2[half]] * n if star else ra2
-        e0 = (Angle(ra1[0]) - Angle(u2[0]))._deg
-        e1 = (Angle(ra1[n_used - 1]) - Angle(u2[n_used - 1]))._deg
+
+        def _sw(d):
+            return d - 360.0 if d > 180.0 else d + 360.0 if d < -180.0 else d
+        e0 = _sw((Angle(ra1[0]) - Angle(u2[0]))._deg)
+        e1 = _sw((Angle(ra1[n_used - 1]) - Angle(u2[n_used - 1]))._deg)
         if isinstance(ex, ValueError) and e0 * e1 > 0.0:
             mon.refusal("conjunction:no-sign-change-between-table-ends"
                         "(not judged)")
@@ -693,7 +703,10 @@ def case_conjunction(mon, seedval):
                 {"seed": seedval, "raised": repr(ex)})
         return
     ts = [i - half for i in range(n_used)]
-    dal = [(Angle(ra1[i]) - Angle(ra2u[i]))._deg for i in range(n_used)]
+    def short_way(d):
+        return d - 360.0 if d > 180.0 else d + 360.0 if d < -180.0 else d
+    dal = [short_way((Angle(ra1[i]) - Angle(ra2u[i]))._deg)
+           for i in range(n_used)]
     dde = [(Angle(de1[i]) - Angle(de2u[i]))._deg for i in range(n_used)]
     Pa, Pd = Poly(ts, dal), Poly(ts, dde)
     n0v = num(n0)
